@@ -11,6 +11,7 @@ import (
 	"github.com/keep-network/keep-core/pkg/protocol/group"
 	"github.com/keep-network/keep-core/pkg/tecdsa"
 	"github.com/keep-network/keep-core/pkg/tecdsa/signing"
+	"golang.org/x/exp/slices"
 )
 
 // signingDoneReceiveBuffer is a buffer for messages received from the broadcast
@@ -50,11 +51,12 @@ type signingDoneCheck struct {
 	broadcastChannel    net.BroadcastChannel
 	membershipValidator *group.MembershipValidator
 
-	receiveCtx           context.Context
-	cancelReceiveCtx     context.CancelFunc
-	expectedSignersCount int
-	doneSigners          map[group.MemberIndex]*signingDoneMessage
-	doneSignersMutex     sync.Mutex
+	receiveCtx            context.Context
+	cancelReceiveCtx      context.CancelFunc
+	expectedSignersCount  int
+	attemptMembersIndexes []group.MemberIndex
+	doneSigners           map[group.MemberIndex]*signingDoneMessage
+	doneSignersMutex      sync.Mutex
 }
 
 func newSigningDoneCheck(
@@ -96,6 +98,7 @@ func (sdc *signingDoneCheck) listen(
 	})
 
 	sdc.expectedSignersCount = len(attemptMembersIndexes)
+	sdc.attemptMembersIndexes = attemptMembersIndexes
 	sdc.doneSigners = make(map[group.MemberIndex]*signingDoneMessage)
 
 	go func() {
@@ -216,6 +219,11 @@ func (sdc *signingDoneCheck) isValidDoneMessage(
 		doneMessage.senderID,
 		senderPublicKey,
 	) {
+		return false
+	}
+
+	if !slices.Contains(sdc.attemptMembersIndexes, doneMessage.senderID) {
+		// only members included in the attempt can confirm it
 		return false
 	}
 
